@@ -632,6 +632,17 @@ func (d *Dials[T]) monitorEnableVerify(ve verifyEnable[T]) bool {
 			return false
 		}
 	}
+	// A config parked in the Events channel was sent while verification
+	// was still delayed and may never have been verified (nor be the
+	// current one): hand out the config we just verified in its place.
+	select {
+	case <-d.updatesChan:
+		select {
+		case d.updatesChan <- vt:
+		default:
+		}
+	default:
+	}
 	ve.resp <- verifyEnableResp[T]{
 		err: nil,
 		v:   vt,
